@@ -268,16 +268,14 @@ impl Driver for CellDriver {
                 _ => {}
             }
         }
-        let mut calls = x.calls.clone();
-        let end = x.steps.len() + 1;
-        // quiescent reads after all threads finished: get() and collect()
-        let fin = sh.apply(CellOp::Get);
-        calls.push(Call { thread: 99, name: "get".into(), arg: Val::Unit, ret: fin.clone(), inv: end, res: end + 1 });
-        match sh.final_collect() {
-            Some(v) => calls.push(Call { thread: 99, name: "get".into(), arg: Val::Unit, ret: Val::F(v), inv: end + 2, res: end + 3 }),
-            None => {
-                return Err((format!("collect-shape:{:?}", self.flavour), "final collect did not return exactly one sample".into()));
-            }
+        let calls = x.calls.clone();
+        // quiescent reads (get, collect) were made by the epilogue under the scheduler
+        let fin = match calls.iter().filter(|c| c.thread == 99).next() {
+            Some(c) => c.ret.clone(),
+            None => return Err((format!("collect-shape:{:?}", self.flavour), "no quiescent read recorded".into())),
+        };
+        if calls.iter().filter(|c| c.thread == 99).any(|c| matches!(c.ret, Val::S(_))) {
+            return Err((format!("collect-shape:{:?}", self.flavour), "final collect did not return exactly one sample".into()));
         }
         let kind = if self.flavour.is_gauge() { "gauge" } else { "counter" };
         match linearizable(&CellSpec { init }, &calls) {
@@ -310,6 +308,13 @@ impl Driver for CellDriver {
     }
     fn cell_names(&self, _sh: &Cell) -> HashMap<usize, String> {
         HashMap::new()
+    }
+    fn epilogue(&self, sh: &Cell, rec: &Recorder) {
+        rec.call("get", Val::Unit, || sh.apply(CellOp::Get));
+        rec.call("get", Val::Unit, || match sh.final_collect() {
+            Some(v) => Val::F(v),
+            None => Val::S("collect shape".into()),
+        });
     }
     fn spec(&self) -> serde_json::Value {
         serde_json::json!({"kind": "cell", "flavour": self.flavour, "prelude": self.prelude, "programs": self.programs})
